@@ -431,6 +431,7 @@ class C08(Property):
 
     def own_output(self, case):
         """What the SDK serializes for a valid ontology it built itself is read back as the same definitions."""
+        from lxml import etree
         from edxml.ontology import Ontology
         try:
             o = build(case['items'])
@@ -439,9 +440,25 @@ class C08(Property):
             return True      # not a case
         try:
             x = o.generate_xml()
+            held = etree.tostring(x)
             back = Ontology.create_from_xml(wrap(x)[0])
         except Exception as ex:
             return 'what generate_xml() wrote for a valid ontology cannot be read back (%s)' % type(ex).__name__
+        # a serialization is a value: what a caller holds is not changed by later uses of the same ontology object
+        # (serialized again, used as the source of an update), and those later uses see the same definitions
+        try:
+            again = etree.tostring(o.generate_xml())
+            Ontology().update(o)
+            third = etree.tostring(o.generate_xml())
+        except Exception as ex:
+            return 'an ontology that was serialized once cannot be serialized / used again (%s)' % type(ex).__name__
+        if etree.tostring(x) != held:
+            return 'the element that generate_xml() returned was changed by later uses of the same ontology object'
+        if again != held or third != held:
+            return 'serializing the same unchanged ontology again gives other bytes'
+        r = self.same_objects(o, back)
+        if r is not True:
+            return 'what is read back from the serialization of a valid ontology does not compare equal to what was serialized: %s' % r
         r = self.same_definitions(wrap(x)[0], back.generate_xml())
         return True if r is True else 'what generate_xml() wrote for a valid ontology reads back with another definition of %s' % r
 
@@ -455,18 +472,23 @@ class C08(Property):
             o2 = Ontology.create_from_xml(wrap(x2)[0])
         except Exception as ex:
             return 'unparsable output (%s)' % type(ex).__name__
+        return C08.same_objects(o1, o2)
+
+    @staticmethod
+    def same_objects(o1, o2):
+        """Every definition of o1 compares equal (==, from both sides) to the definition o2 holds under that name."""
         try:
             for name, ot in o1.get_object_types().items():
-                if not (o2.get_object_type(name) == ot):
+                if not (o2.get_object_type(name) == ot) or not (ot == o2.get_object_type(name)):
                     return 'object type ' + name
             for name, c in o1.get_concepts().items():
-                if not (o2.get_concept(name) == c):
+                if not (o2.get_concept(name) == c) or not (c == o2.get_concept(name)):
                     return 'concept ' + name
             for name, et in o1.get_event_types().items():
-                if not (o2.get_event_type(name) == et):
+                if not (o2.get_event_type(name) == et) or not (et == o2.get_event_type(name)):
                     return 'event type ' + name
             for uri, s in o1.get_event_sources().items():
-                if not (o2.get_event_source(uri) == s):
+                if not (o2.get_event_source(uri) == s) or not (s == o2.get_event_source(uri)):
                     return 'source ' + uri
         except Exception as ex:
             return 'err:' + type(ex).__name__
